@@ -188,4 +188,25 @@ CLAIMS['C18'] = {
     'technique': 'mask-agreement and containment idioms, lane-reduction enumeration, AC normal form of sibling formulas',
 }
 
+CLAIMS['C16'] = {
+    'text': 'PARTIAL: number of trees (one first tree plus one per k in range(1, min(n_var-1, truncated)), tree k on n_var-k nodes from '
+            'tree k-1) and number of edges (n_nodes-1 per builder, by loop cardinality; one dead branch triaged) ; edge index = '
+            'position; the child-edge set algebra (A & B, sorted(A ^ B), parents); proximity (|A|B| = level+1, consecutive edges, '
+            'anchor); star/path shape by construction and no stale candidate carried through the greedy path loop; polarity of '
+            'the greedy choices and Kendall tau of the training table as their input; every edge carries one select_copula result. '
+            'Spanning-tree property for every ordering of tau values and "no pair conditioned twice" depend on runtime values, not decided.',
+    'note': NOTE,
+    'technique': 'loop-cardinality and loop-carried-state idioms, AC normal form of bounds, set-algebra pattern checks',
+}
+CLAIMS['C17'] = {
+    'text': 'PARTIAL: h-function and tau computation read an edge\'s inputs through the same accessor and copulas are selected on those '
+            'inputs; both h-arrays are corrected away from 0/1 and stored as [left|right, right|left], read back with the matching '
+            'index; a rebuilt pair copula takes family and theta from the same edge; likelihood recursion (log of pair density, tree '
+            'sum, next matrix cells and their rank 0 - the rule that exposed fixed defect F19 - matrix handed from tree to tree); '
+            'no entropy or uninitialised buffer in get_likelihood; sample() schema (rows, columns, clipped probabilities, rank-0 '
+            'stores - F18). Equality with the pair-copula decomposition and the law of samples are not decided.',
+    'note': NOTE,
+    'technique': 'accessor/sibling agreement, rank-kind and length-kind abstract interpretation, RNG effect closure, np.empty coverage',
+}
+
 NOT_APPLICABLE = {}
